@@ -76,6 +76,14 @@ def remove_redundant_iter(source: str) -> str:
     template = (ast.For(iter=iter_template), ast.comprehension(iter=iter_template))
 
     for node in core.walk(root, template):
+        if isinstance(node, ast.For) and node.iter.func.id != "iter":
+            # for x in list(xs): xs.remove(x) iterates over a copy on purpose
+            names = tuple({name.id for name in core.walk(node.iter.args[0], ast.Name)})
+            if names and any(
+                True for child in node.body + node.orelse for _ in core.walk(child, ast.Name(id=names))
+            ):
+                continue
+
         yield node.iter, node.iter.args[0]
 
 
